@@ -26,6 +26,15 @@ func VerifDir() string {
 	return "/verif"
 }
 
+// OutDir is where evidence and replay files are written (VERIF_OUT overrides it for self-test runs against
+// scratch copies, so that they never overwrite the evidence of the real tree).
+func OutDir() string {
+	if d := os.Getenv("VERIF_OUT"); d != "" {
+		return d
+	}
+	return VerifDir()
+}
+
 func SeedFromEnv() int64 {
 	if s := os.Getenv("VERIF_SEED"); s != "" {
 		if v, err := strconv.ParseInt(s, 10, 64); err == nil {
@@ -590,7 +599,7 @@ func finish(pc *ParentCtx, start time.Time) int {
 	sort.Strings(order)
 	newV := 0
 	knownHit := []string{}
-	replayDir := filepath.Join(VerifDir(), "replays", p.ID)
+	replayDir := filepath.Join(OutDir(), "replays", p.ID)
 	for _, sig := range order {
 		a := bySig[sig]
 		if what, ok := pc.Known.Lookup(p.ID, sig); ok {
@@ -652,8 +661,8 @@ func finish(pc *ParentCtx, start time.Time) int {
 	}
 	if !incon || newV > 0 {
 		eb, _ := json.MarshalIndent(ev, "", " ")
-		_ = os.MkdirAll(filepath.Join(VerifDir(), "evidence"), 0o755)
-		_ = os.WriteFile(filepath.Join(VerifDir(), "evidence", p.ID+".json"), append(eb, '\n'), 0o644)
+		_ = os.MkdirAll(filepath.Join(OutDir(), "evidence"), 0o755)
+		_ = os.WriteFile(filepath.Join(OutDir(), "evidence", p.ID+".json"), append(eb, '\n'), 0o644)
 	}
 	fmt.Printf("property=%s tier=%s seed=%d cases=%d evaluations=%d distinct_nontrivial=%d new_violations=%d known=%d wall=%.1fs\n",
 		p.ID, pc.Tier, pc.Seed, merged.Cases, merged.Evaluations, nd, newV, len(knownHit), time.Since(start).Seconds())
